@@ -71,6 +71,12 @@ pub enum FileCase {
     /// chromosomes allowed: name lookups must not assume sorted names
     WigKaryo { n: u32, opts: Opts },
     BedKaryo { n: u32, opts: Opts },
+    /// three chromosomes of which the one at `pos` covers no base: kind 0 = it has zero-length items
+    /// only, kind 1 = it is started by the source without any item (`SrcKind::Started` only).  The
+    /// other two carry data whose values are all positive (sign 0) or all negative (sign 1): the
+    /// hollow chromosome contributes no minimum and no maximum
+    WigHollow { pos: u32, kind: u32, sign: u32, opts: Opts },
+    BedHollow { pos: u32, kind: u32, opts: Opts },
     /// bigwiginfo / bigbedinfo on an encoder-written file (C06 tool part)
     Info(crate::clifam::InfoTool),
     /// `bigbedtobed --zoom` on a file written by the library (C08 tool part)
@@ -127,6 +133,51 @@ pub fn expand(c: &FileCase) -> FileCase {
                     len: n + 4,
                     items,
                 }],
+                extra_sizes: vec![],
+                allow_ooo: false,
+                autosql: None,
+                opts: opts.clone(),
+            })
+        }
+        FileCase::WigHollow { pos, kind, sign, opts } => {
+            let sg = if *sign == 1 { -1.0f32 } else { 1.0 };
+            let full = [vec![(0u32, 3u32, 2.5f32), (3, 4, 1.5), (9, 12, 4.0)], vec![(2, 5, 3.0), (5, 6, 7.25)]];
+            let mut k = 0;
+            FileCase::Wig(WigCase {
+                chroms: (0..3u32)
+                    .map(|ci| WChrom {
+                        name: format!("h{}", ci + 1),
+                        len: L,
+                        items: if ci == *pos {
+                            if *kind == 0 { vec![WItem { s: 3, e: 3, vb: (sg * 9.0).to_bits() }, WItem { s: 7, e: 7, vb: (sg * 0.25).to_bits() }] } else { vec![] }
+                        } else {
+                            k += 1;
+                            full[k - 1].iter().map(|(s, e, v)| WItem { s: *s, e: *e, vb: (sg * v).to_bits() }).collect()
+                        },
+                    })
+                    .collect(),
+                extra_sizes: vec![],
+                allow_ooo: false,
+                opts: opts.clone(),
+            })
+        }
+        FileCase::BedHollow { pos, kind, opts } => {
+            let core = core_bed_layouts();
+            let full = [&core[2], &core[7]];
+            let mut k = 0;
+            FileCase::Bed(BedCase {
+                chroms: (0..3u32)
+                    .map(|ci| BChrom {
+                        name: format!("h{}", ci + 1),
+                        len: L,
+                        items: if ci == *pos {
+                            if *kind == 0 { vec![BItem { s: 3, e: 3, rest: "z1".into() }, BItem { s: 7, e: 7, rest: "z2".into() }] } else { vec![] }
+                        } else {
+                            k += 1;
+                            bed_items(full[k - 1], ci as usize)
+                        },
+                    })
+                    .collect(),
                 extra_sizes: vec![],
                 allow_ooo: false,
                 autosql: None,
@@ -520,7 +571,44 @@ pub fn name_sets() -> Vec<Vec<String>> {
         vec!["L".repeat(255), "L".repeat(256), "M".repeat(1000)],
         vec!["chr\u{e9}".into(), "chr\u{3b1}".into(), "chr\u{3b2}\u{3b2}".into()],
         vec!["a".into(), "z".repeat(300)],
+        // names that are words of other formats: the columns are separated by tabs only, so a name
+        // is whatever stands before the first tab
+        vec!["#chrom".into(), "browser".into(), "chr1".into(), "track".into()],
+        vec!["browser position".into(), "chr 1".into(), "track name=x".into()],
+        vec!["1".into(), "10".into(), "2".into(), "NaN".into(), "X".into(), "inf".into()],
     ]
+}
+
+/// one of three chromosomes without a covered base, at every position, through every source that
+/// can express it, single- and two-pass
+pub fn hollow_cases(bed: bool) -> Vec<FileCase> {
+    let mut v = vec![];
+    for pos in 0..3u32 {
+        for kind in 0..2u32 {
+            let srcs: Vec<SrcKind> = if kind == 1 { vec![SrcKind::Started] } else { vec![SrcKind::Iter, SrcKind::SerialText, SrcKind::ParallelFile, SrcKind::Started] };
+            for src in srcs {
+                for two_pass in [false, true] {
+                    for (ips, bs) in [(1u32, 2u32), (1024, 256)] {
+                        let mut o = Opts::base();
+                        o.ips = ips;
+                        o.bs = bs;
+                        o.two_pass = two_pass;
+                        o.src = src;
+                        o.compress = (pos + kind) % 2 == 0;
+                        o.zoom = Zoom::Manual(vec![4]);
+                        if bed {
+                            v.push(FileCase::BedHollow { pos, kind, opts: o });
+                        } else {
+                            for sign in 0..2u32 {
+                                v.push(FileCase::WigHollow { pos, kind, sign, opts: o.clone() });
+                            }
+                        }
+                    }
+                }
+            }
+        }
+    }
+    v
 }
 
 fn names_cases(bed: bool) -> Vec<FileCase> {
@@ -898,7 +986,7 @@ pub fn wig_family(tier: Tier) -> Box<dyn Iterator<Item = FileCase>> {
             big.push(FileCase::WigBig { n, opts: o });
         }
     }
-    Box::new(a.chain(b).chain(big.into_iter()).chain(many_cases(false, quick).into_iter()).chain(uneven_cases(false).into_iter()).chain(names_cases(false).into_iter()).chain(many_zoom_cases(false).into_iter()).chain(big_text_cases(false).into_iter()))
+    Box::new(a.chain(b).chain(big.into_iter()).chain(many_cases(false, quick).into_iter()).chain(uneven_cases(false).into_iter()).chain(names_cases(false).into_iter()).chain(many_zoom_cases(false).into_iter()).chain(big_text_cases(false).into_iter()).chain(hollow_cases(false).into_iter()))
 }
 
 pub fn bed_family(tier: Tier) -> Box<dyn Iterator<Item = FileCase>> {
@@ -995,7 +1083,8 @@ pub fn bed_family(tier: Tier) -> Box<dyn Iterator<Item = FileCase>> {
                 v.into_iter()
             })
             .chain(many_zoom_cases(true).into_iter())
-            .chain(big_text_cases(true).into_iter()),
+            .chain(big_text_cases(true).into_iter())
+            .chain(hollow_cases(true).into_iter()),
     )
 }
 
@@ -1789,6 +1878,8 @@ impl Check for C06 {
             big.push(FileCase::WigHuge { opts: oz.clone() });
             big.push(FileCase::BedHuge { opts: oz });
         }
+        big.extend(hollow_cases(false));
+        big.extend(hollow_cases(true));
         Box::new(m.chain(w).chain(b).chain(tools).chain(big.into_iter()))
     }
     fn run(&self, case: &FileCase, out: &mut Outcome) {
